@@ -195,14 +195,14 @@ def r3(ctx, R):
                                         ("SpaceManager.rename_cells", ("append", "on_rename"), None)):
         fi = ctx.func(spec)
         lp = _sub_loops(fi)
-        R.need(lp, "%s: loop over subs not found" % spec)
+        R.must(lp, "%s: loop over subs not found" % spec)
         lp = lp[0]
         vocab = {"c is not cells", "c.is_defined()",
                  "self.get_deriv_bases(c, defined_only=True)[0] is not cells",
                  "self.get_deriv_bases(c, defined_only=True)[0] is cells"}
         _known(fi, lp, vocab, R)
         acts = [c for c in ast.walk(lp) if isinstance(c, ast.Call) and call_name(c) in action]
-        R.need(acts, "%s: action not found in the loop" % spec)
+        R.must(acts, "%s: action not found in the loop" % spec)
         cases = [("self", dict(is_self=True, defined=True, first=False), True),
                  ("derived from b", dict(is_self=False, defined=False, first=True), True),
                  ("derived from another base", dict(is_self=False, defined=False, first=False), False),
@@ -224,7 +224,7 @@ def r3(ctx, R):
     # ---- new_cells
     fi = ctx.func("SpaceManager.new_cells")
     lp = _sub_loops(fi)
-    R.need(lp, "new_cells: loop over subs not found")
+    R.must(lp, "new_cells: loop over subs not found")
     lp = lp[0]
     vocab = {"name in subspace.cells", "sub.is_derived()", "self.get_deriv_bases(sub, defined_only=True)[0] is cells"}
     _known(fi, lp, vocab, R)
@@ -253,7 +253,7 @@ def r3(ctx, R):
     # ---- new_ref / change_ref
     fi = ctx.func("SpaceManager.new_ref")
     lp = [l for l in _sub_loops(fi)]
-    R.need(lp, "new_ref: loop over subs not found")
+    R.must(lp, "new_ref: loop over subs not found")
     lp = lp[0]
     act = [c for c in ast.walk(lp) if isinstance(c, ast.Call) and call_name(c) == "on_create_ref"]
     for label, has, want in (("lacks the name", False, True), ("has its own reference", True, False)):
@@ -268,7 +268,7 @@ def r3(ctx, R):
             R.bad(fi, c, "reference created in a sub is not marked derived")
     fi = ctx.func("SpaceManager.change_ref")
     lp = _sub_loops(fi)
-    R.need(lp, "change_ref: loop over subs not found")
+    R.must(lp, "change_ref: loop over subs not found")
     lp = lp[0]
     vocab = {"subref.is_defined()", "subref.defined_bases[0] is not space.own_refs[name]", "isinstance(value, Interface)",
              "value._is_valid()", "refmode == 'auto'", "refmode == 'relative'"}
